@@ -607,7 +607,7 @@ func tryReplay(o *Obligation, repo, scratch string) (string, bool) {
 	var oldNames []string
 	if o.Kind == "post" && c.fc != nil {
 		for i, od := range c.fc.Olds {
-			if strings.Contains(od.Expr, "verif") {
+			if usesGhostIntrinsic(od.Expr) {
 				oldNames = nil
 				break
 			}
@@ -632,7 +632,7 @@ func tryReplay(o *Obligation, repo, scratch string) (string, bool) {
 	// evaluate postconditions that are executable (no ghost intrinsics)
 	if o.Kind == "post" && c.fc != nil && len(oldNames) == len(c.fc.Olds) {
 		for i, en := range c.fc.Ensures {
-			if strings.Contains(en.Expr, "verif") && !strings.Contains(en.Expr, "verifForall") {
+			if usesGhostIntrinsic(en.Expr) {
 				continue
 			}
 			args := append(append([]string{}, argExprs...), resNames...)
@@ -733,7 +733,7 @@ func corpusFor(t types.Type, qual types.Qualifier) []string {
 		switch {
 		case u.Info()&types.IsString != 0:
 			var out []string
-			for _, s := range []string{"", "a", "a.b", "a.c", "a.b.x", "k", "l", "*", "a.*", "a.c[0]", "a.c[9]", "a.c[0].d", "l[1]", ".", "a.", ".a", "a..b", "[", "a[", "a[]", "a[x]", "a[9223372036854775807]", "a[2147483647]", ":", ":x", "a:", "a:b", "a:b:c", "a:b:bool", "a:1:float", "!a:*", "a:b:c:d", "k:v", "-id:1", "x:y", "k:new", "b:new", "a.b:q", "n", "n.x", "k.x", "t.x", "#text", "-id"} {
+			for _, s := range []string{"", "+Inf", "Infinity", "-infinity", "NaN", "1e999", "9223372036854775808", "18446744073709551615", "-9223372036854775808", "0x1p-2", "TRUE", "1", "12", "-0", "a", "a.b", "a.c", "a.b.x", "k", "l", "*", "a.*", "a.c[0]", "a.c[9]", "a.c[0].d", "l[1]", ".", "a.", ".a", "a..b", "[", "a[", "a[]", "a[x]", "a[9223372036854775807]", "a[2147483647]", ":", ":x", "a:", "a:b", "a:b:c", "a:b:bool", "a:1:float", "!a:*", "a:b:c:d", "k:v", "-id:1", "x:y", "k:new", "b:new", "a.b:q", "n", "n.x", "k.x", "t.x", "#text", "-id"} {
 				out = append(out, ts+"("+strconv.Quote(s)+")")
 			}
 			return out
@@ -844,7 +844,7 @@ func corpusTestFor(o *Obligation, fn *ssa.Function, gsets []string, own bool) st
 	evalPost := o.Kind == "post" && c.fc != nil && own
 	if evalPost {
 		for i, od := range c.fc.Olds {
-			if strings.Contains(od.Expr, "verif") {
+			if usesGhostIntrinsic(od.Expr) {
 				evalPost = false
 				break
 			}
@@ -856,14 +856,14 @@ func corpusTestFor(o *Obligation, fn *ssa.Function, gsets []string, own bool) st
 	if evalPost {
 		// preconditions must hold for the candidate
 		for _, rq := range c.fc.Requires {
-			if strings.Contains(rq.Expr, "verif") && !strings.Contains(rq.Expr, "verifForall") {
+			if usesGhostIntrinsic(rq.Expr) {
 				evalPost = false
 			}
 		}
 	}
 	if c.fc != nil && own {
 		for _, rq := range c.fc.Requires {
-			if strings.Contains(rq.Expr, "verif") && !strings.Contains(rq.Expr, "verifForall") {
+			if usesGhostIntrinsic(rq.Expr) {
 				continue
 			}
 			fmt.Fprintf(&sb, "\t\t\tif !%s(%s) { return false }\n", rq.Fn, strings.Join(names, ", "))
@@ -877,7 +877,7 @@ func corpusTestFor(o *Obligation, fn *ssa.Function, gsets []string, own bool) st
 	}
 	if evalPost {
 		for i, en := range c.fc.Ensures {
-			if strings.Contains(en.Expr, "verif") && !strings.Contains(en.Expr, "verifForall") {
+			if usesGhostIntrinsic(en.Expr) {
 				continue
 			}
 			args := append(append(append([]string{}, names...), resNames...), oldNames...)
@@ -1000,4 +1000,17 @@ func replayVia(o *Obligation, repo, scratch string) (string, bool) {
 	}
 	rep.WriteString("REPRODUCED=false\n")
 	return rep.String(), false
+}
+
+var ghostIntrinsicNames = []string{"verifBuf", "verifRdPos", "verifRdData", "verifRdEOF", "verifWritten", "verifTokPos", "verifTokDepth", "verifFresh", "verifFreshVal",
+	"verifRangeCount", "verifHeight", "verifIsNaN", "verifIsInf", "verifVisited", "verifLent"}
+
+// usesGhostIntrinsic: the clause mentions a ghost function that has no executable body (cannot be evaluated in a replay).
+func usesGhostIntrinsic(expr string) bool {
+	for _, n := range ghostIntrinsicNames {
+		if strings.Contains(expr, n+"(") {
+			return true
+		}
+	}
+	return false
 }
